@@ -5,6 +5,7 @@ import (
 	"fmt"
 	"strings"
 	"testing"
+	"time"
 
 	"cosmossdk.io/math"
 	cryptotypes "github.com/cosmos/cosmos-sdk/crypto/types"
@@ -49,6 +50,7 @@ func newC04World() *c04World { return newC04WorldWith(0, 0) }
 
 func newC04WorldWith(otherFirst, otherAfter int) *c04World {
 	tc := newTwoChain(tcOpts{nExecutors: 1, otherFirst: otherFirst, otherAfter: otherAfter})
+	tc.l1.Advance(700 * time.Millisecond)                                        // L1 block times have a sub-second part
 	huge, _ := math.NewIntFromString("1361129467683753853853498429727072845824") // 2^130
 	for _, d := range c04Denoms {
 		tc.l1.Fund(tc.users[0].Addr, sdk.NewCoin(d, huge))
@@ -148,7 +150,23 @@ func (w *c04World) settle(l2Block uint64) ([]c04Claimed, error) {
 	for i, id := range tc.neighbours {
 		w.notes = append(w.notes, tc.neighbourChallenge(id, uint64(1+i%2)))
 	}
-	tc.l1.Advance(tc.period)
+	// the outputs were proposed at a block time with a sub-second part (x.7 s); the claims happen in the very
+	// second in which the period elapses (x.2 s): final by the chain's whole-second rule, 0.5 s before the exact instant
+	tc.l1.Advance(tc.period - 500*time.Millisecond)
+	if len(w.outs) > 0 {
+		newest := w.outs[len(w.outs)-1].o.Index
+		if lf, err := tc.l1.Q.LastFinalizedOutput(tc.l1.Ctx, &ophosttypes.QueryLastFinalizedOutputRequest{BridgeId: tc.bridgeID}); err != nil || lf.OutputIndex < newest {
+			tc.l1.Advance(time.Second) // not final yet by the chain's own account: wait
+		} else {
+			w.notes = append(w.notes, "claims happen within the second in which the period elapses")
+		}
+		// the challenger tries to delete what the chain calls final: refused, or the withdrawals below are lost
+		for _, co := range w.outs {
+			if r := tc.l1.Deliver(ophosttypes.NewMsgDeleteOutput(tc.chal.Str, tc.bridgeID, co.o.Index)); r.OK() {
+				return nil, fmt.Errorf("output %d, which Query/LastFinalizedOutput reports as final, was deleted by the challenger: the %d withdrawals it commits can never be claimed", co.o.Index, len(co.o.Tuples))
+			}
+		}
+	}
 	var out []c04Claimed
 	for _, co := range w.outs {
 		o := co.o
@@ -273,8 +291,13 @@ func TestC04Rapid(t *testing.T) {
 				wmsg := opchildtypes.NewMsgInitiateTokenWithdrawal(user.Str, c04Recipient(rt, tc), sdk.NewCoin(l2d, math.NewInt(3)))
 				smsg := banktypes.NewMsgSend(user.Addr, tc.users[1].Addr, sdk.NewCoins(sdk.NewCoin(l2d, math.NewInt(2))))
 				msgs := []sdk.Msg{wmsg, smsg}
-				if rapid.Bool().Draw(rt, "withdrawLast") {
+				switch rapid.IntRange(0, 3).Draw(rt, "hookShape") {
+				case 0, 1:
 					msgs = []sdk.Msg{smsg, wmsg}
+				case 2:
+					// the message after the withdrawal fails: the whole hook is undone, the deposit refunded
+					msgs = []sdk.Msg{wmsg, banktypes.NewMsgSend(user.Addr, tc.users[1].Addr, sdk.NewCoins(sdk.NewCoin(l2d, math.NewInt(1<<50))))}
+					c.Class("hook-withdrawal-followed-by-a-failing-message")
 				}
 				data := signTx(tc.l2, msgs, []cryptotypes.PrivKey{user.Priv}, []uint64{num}, []uint64{seq}, henv.L2ChainID)
 				acc, err := w.depositWithData(user.Str, sdk.Coin{Denom: denom, Amount: small}, data)
